@@ -427,6 +427,13 @@ func (s *shard) repair(ctx context.Context, id []byte, property *propertyv1.Prop
 			olderProperties[len(olderProperties)-1].deleteTime == deleteTime {
 		return false, olderProperties[len(olderProperties)-1], nil
 	}
+	// A delete marks the existing revision instead of creating a new one, so at
+	// an equal revision the tombstone is the newer state: a live copy from a
+	// replica that missed the delete must not resurrect the property.
+	if olderProperties[len(olderProperties)-1].timestamp == property.Metadata.ModRevision &&
+		olderProperties[len(olderProperties)-1].deleteTime > 0 && deleteTime <= 0 {
+		return false, olderProperties[len(olderProperties)-1], nil
+	}
 
 	docIDList := s.buildNotDeletedDocIDList(olderProperties)
 	deletePhaseStart := time.Now()
